@@ -3,7 +3,7 @@ import math
 import core
 import gen
 from core import PANIC, ANY, NOPANIC, NoCalib, Some, opt
-from props.common import default_encode, default_decode
+from props.common import thorough_aux, default_encode, default_decode
 from props import c01, c02, c03, c05, c06, c08, c10
 
 PROP = 'C18'
@@ -320,3 +320,6 @@ def floors(st, tier):
     # the quick table has no 16-bit-digit configuration wider than 128 bits
     req = [c for c in REQUIRED if tier == 'thorough' or not (c.endswith('@d16') and 'Newton' in c)]
     return ['class %r never observed' % c for c in req if st['classes'].get(c, 0) == 0]
+
+
+extra_passes = thorough_aux('props.c18', ('miri',), nreq=30)
